@@ -38,13 +38,14 @@ T = {
          "for every scenario and every allocation index k the k-th allocation fails; error/complete-correctly oracle, leak and canary oracles", "link-time malloc wrap sees libyara/flex allocations only"),
  "C17": ("fault_enumeration", "exhaustive prefix (crash point) and header-field corruption enumeration of saved rule files", "3/C17",
          "every prefix of saved images and every field corruption is loaded; a success must behave like the intact rules", "set of saved images"),
- "C18": ("model_checking", "preemption-bounded schedule enumeration of the real CLI queue under a scheduler shim + Spin model bound by trace replay + black-box differential", "3/C18",
-         "all schedules (bounded preemptions) of the real cli/yara.c main with 1-3 threads over small directories; Promela queue model for larger parameters, its traces replayed on the implementation", "threading shim replaces cli/threading.c; model bound at small parameters"),
+ "C18": ("model_checking", "preemption-bounded schedule enumeration of the real CLI main under a scheduler shim + TLA+/TLC model of the queue bound to the code by transition-set equality and path replay + black-box differential", "3/C18",
+         "all schedules (bounded preemptions, state-hash pruned) of the real cli/yara.c main with 1-3 threads over small directories; TLC explores the queue model for larger parameters; at the smallest parameters the model's state graph and the implementation's complete exploration have equal abstract transition sets and a path to every model transition is replayed on the implementation", "threading shim replaces cli/threading.c; model bound at small parameters"),
  "C19": ("exploration", "exhaustive sweep of initial arena capacities (every growth position) with twin oracle under ASan", "3/C19",
          "each rule set compiled with every initial capacity c in a range covering every allocation point; traces and saved bytes must be identical", "YARA_VERIF hook in yr_compiler_create"),
  "C20": ("model_checking", "explicit-state BFS over define/create/scan histories vs a 3-level environment model", "3/C20",
          "every history up to a depth is executed on the real objects; return codes and probe-rule verdicts compared with the model in every step", "environment model ref_env"),
 }
+ENGINE = {"C01": "space", "C02": "space", "C03": "space", "C05": "space+yvw", "C09": "yvsched+c09", "C18": "yvsched+c18+tlc"}
 NA_REASON = "check not built yet in this session (planned in DESIGN.md section 3); not claimed until its quick tier has run end-to-end on the unchanged tree"
 checks, na = [], []
 for pid in sorted(T):
@@ -54,7 +55,7 @@ for pid in sorted(T):
                            thorough_cmd="python3 check.py %s --tier thorough" % pid,
                            evidence_file="evidence/%s.json" % pid,
                            replay_cmd_template="python3 check.py %s --replay {path}" % pid,
-                           engine="yvw", level_claimed=dict(category=lvl, text=text, design_ref=ref), level_note=note, technique=tech))
+                           engine=ENGINE.get(pid, "yvw"), level_claimed=dict(category=lvl, text=text, design_ref=ref), level_note=note, technique=tech))
     else:
         na.append(dict(property_id=pid, reason=NA_REASON))
 import subprocess
@@ -63,8 +64,14 @@ hook_commits = [l.split()[0] for l in hooks if "verif hook" in l]
 M = dict(version=1, setup_cmd="python3 mk/setup.py",
          hooks=dict(guard="YARA_VERIF", enable="mk/build.py compiles every variant with -DYARA_VERIF (out of tree, into /verif/build)",
                     baseline_off_cmd="make -C /repo -j16 check", source_commits=hook_commits, add_only=True),
-         engines=[dict(name="yvw", path="harness/yvw.c", serves_properties=[c["property_id"] for c in checks],
-                       kind_free_text="persistent C worker driving the public libyara API from a line protocol; python orchestrators enumerate the spaces")],
+         engines=[dict(name="yvw", path="harness/yvw.c", serves_properties=[c["property_id"] for c in checks if c["engine"] in ("yvw", "space+yvw")],
+                       kind_free_text="persistent C worker driving the public libyara API from a line protocol (allocation wrapper, scripted block iterator, callback scripts, virtual clock); python orchestrators enumerate the spaces"),
+                  dict(name="space", path="harness/space.c", serves_properties=["C01", "C02", "C03", "C05"],
+                       kind_free_text="in-process exhaustive loops: program x every buffer of a space, compared with reference matchers (harness/refmatch.h)"),
+                  dict(name="yvsched", path="harness/yvsched.c", serves_properties=["C09", "C18"],
+                       kind_free_text="cooperative scheduler over real pthreads with schedule replay; drivers harness/c09.c and harness/c18.c; explorer (DFS, preemption bound, state hashing) in checks/c09.py and checks/c18.py"),
+                  dict(name="tlc", path="models/CliQueue.tla", serves_properties=["C18"],
+                       kind_free_text="TLA+ model of the CLI file queue checked by TLC and bound to the implementation (checks/c18_model.py)")],
          checks=checks, not_applicable=na,
          notes="see DESIGN.md; all checks rebuild libyara from /repo's working tree into /verif/build (content-hashed)")
 json.dump(M, open(os.path.join(V, "MANIFEST.json"), "w"), indent=1)
